@@ -8,7 +8,8 @@
      run_resave = <load> ++ (run_rt of the loaded picture)   (nothing after a failed first load) *)
 From Coq Require Import NArith ZArith Bool List.
 From IE Require Import Lib.Tbl Lib.C05Lib Gen.Codepage Gen.Formats Model.Attr Model.C05Buf Model.C05Bin Model.C05XBin
-  Model.C05Idf Model.C05Tundra Model.C02Loaders.
+  Model.C05Idf Model.C05Tundra Model.C02Loaders Model.C05XBinC Model.C05Files.
+From IE Require Model.Sauce.
 Import ListNotations.
 Local Open Scope Z_scope.
 
@@ -76,7 +77,7 @@ Definition save_fmt (fmt : N) (compress with_sauce : bool) (p : pic) : res (list
   match fmt with
   | 0%N => if with_sauce then (let* _ := bin_sauce p in Ok (save_bin p)) else Ok (save_bin p)
   | 1%N => save_adf p
-  | 2%N => if compress then Err 98 else save_xb p
+  | 2%N => save_xbo compress p      (* both data layouts: Model/C05XBinC.v (C05's file level + C06's compressor) *)
   | 3%N => (* the IDF writer appends a SAUCE record of type Bin: width / 2 must fit a byte *)
            match save_idf compress p with
            | Ok d => if with_sauce then (let* _ := bin_sauce p in Ok d) else Ok d
@@ -131,3 +132,28 @@ Fixpoint blocks (fuel : nat) (l : list Z) : list Z :=
   | _, _ => []
   end.
 Definition digest (l : list Z) : list Z := Z.of_nat (length l) :: blocks (S (length l / 64)) l.
+
+(* whole files with their SAUCE bytes (Model/C05Files.v): Buffer::to_bytes(ext, save_sauce = true) and Buffer::from_bytes on
+   those bytes.  `name` = name of font 0 as code points, `date` = the 8 date bytes the real writer produced (taken from its
+   output by the plug-in: the record carries today's date); the buffer has no SAUCE strings of its own (Buffer::new).
+   fmt as above.  Layout as run_rt, but `bytes` is the complete file. *)
+Definition file_to_bytes (fmt : N) (compress : bool) (p : pic) (name date : list N) : res (list N) :=
+  match fmt with
+  | 0%N => bin_to_bytes true p name None date
+  | 1%N => adf_to_bytes true p name None date
+  | 2%N => xb_to_bytes compress true p name None date
+  | 3%N => idf_to_bytes compress true p name None date
+  | _ => tnd_to_bytes true p name None date
+  end.
+Definition file_from_bytes (fmt : N) (bytes : list N) : res buffer :=
+  match fmt with
+  | 0%N => bin_from_bytes Sauce.chrono_parse bytes
+  | 1%N => adf_from_bytes Sauce.chrono_parse bytes
+  | 2%N => xb_from_bytes Sauce.chrono_parse bytes
+  | 3%N => idf_from_bytes Sauce.chrono_parse bytes
+  | _ => tnd_from_bytes Sauce.chrono_parse bytes
+  end.
+Definition run_file (fmt : N) (compress : bool) (p : pic) (name date : list N) : list Z :=
+  show_rt (file_to_bytes fmt compress p name date) (file_from_bytes fmt).
+(* Buffer::from_bytes on arbitrary bytes (SAUCE split included) *)
+Definition run_file_load (fmt : N) (bytes : list N) : list Z := show_load (file_from_bytes fmt bytes).
